@@ -151,7 +151,12 @@ func main() {
 		fmt.Fprintln(os.Stderr, "codec facts:", err)
 		os.Exit(1)
 	}
-	rendered := strings.Replace(a.render(), "\nend Generated\n", renderEffects(files)+renderLockShape(a.fset, files)+codec+"\nend Generated\n", 1)
+	syncS, err := renderSyncShape(*repo)
+	if err != nil {
+		fmt.Fprintln(os.Stderr, "sync shape:", err)
+		os.Exit(1)
+	}
+	rendered := strings.Replace(a.render(), "\nend Generated\n", renderEffects(files)+renderLockShape(a.fset, files)+syncS+codec+"\nend Generated\n", 1)
 	if err := os.WriteFile(*out, []byte(rendered), 0o644); err != nil {
 		fmt.Fprintln(os.Stderr, err)
 		os.Exit(1)
